@@ -18,6 +18,7 @@ class Ctx:
     """shared analyses, built once per run"""
     def __init__(self, F):
         self.F = F
+        RP.set_facts(F)
         self._FL = None
         self._R = None
         self._ws = None
